@@ -212,6 +212,11 @@ def _reaction_cases(tier):
                     out.append({"kind": "reaction", "sim": sim, "dim": dim, "mesh": md, "load": load})
             # a user weak form with a NON symmetric operator (rows of K and columns of K are different things)
             out.append({"kind": "reaction", "sim": "WeakNonsym", "dim": dim, "mesh": md, "load": "nodal"})
+    # phase-field displacement problem after a NON proportional two-step history with a strain-sign dependent split and damage: the
+    # reactions are those of the system the displacement was solved with (they sum to zero per direction over all constrained dofs)
+    for split in ("Amor", "Miehe", "Bourdin"):
+        for md in [m for m in meshes_for(2, tier) if not m.get("orphan")][:3]:
+            out.append({"kind": "reaction_pf", "split": split, "mesh": md})
     for dim in (1, 2, 3):
         for et in BEAM_TYPES:
             for theory in ("EB", "Timo"):
@@ -1169,6 +1174,45 @@ def _run_reaction(case):
             v.append(viol("reaction_value", f"direction {name}: Calc_Reaction differs from K[dofs] u by {np.abs(R - Ku).max():.3e}", direction=name, **key))
     return {"violations": v, "fingerprint": fp(sim, case["mesh"]["id"], load, np.array(obs), u), "nontrivial": float(np.abs(u).max()) > 0,
             "transitions": ntr, "outcome": f"reaction:{sim}:viol={len(v)}"}
+
+
+def _run_reaction_pf(case):
+    from EasyFEA import Models, Simulations
+
+    split = case["split"]
+    mesh, zm = build_mesh(case["mesh"])
+    if len(mesh.Get_list_groupElem()) > 1 and False:
+        pass
+    key = {"sim": "PhaseField", "split": split, "mesh": case["mesh"]["id"]}
+    PF = Models.PhaseField
+    mat = Models.Elastic.Isotropic(2, E=2.3, v=0.28, planeStress=False, thickness=0.7)
+    with _quiet():
+        simu = Simulations.PhaseField(mesh, PF(mat, PF.SplitType[split], PF.ReguType.AT2, Gc=2e-3, l0=0.35))
+    nodes = np.asarray(mesh.nodes, dtype=int)
+    cl, ld = _clamp_and_load_nodes(np.asarray(mesh.coord), nodes)
+    v, obs, ntr = [], [], 0
+    steps = [(0.05, 0.0), (0.02, 0.04), (0.03, -0.03)]  # (u_x, u_y) prescribed on the loaded side: not proportional
+    for k, (ux, uy) in enumerate(steps):
+        with _quiet():
+            simu.Bc_Init()
+            simu.add_dirichlet(cl, [0.0, 0.0], ["x", "y"])
+            simu.add_dirichlet(ld, [ux, uy], ["x", "y"])
+            simu.Solve()
+            simu.Save_Iter()
+        ntr += 1
+        d = np.asarray(simu.damage, dtype=float)
+        for name in ("x", "y"):
+            dofs = np.asarray(simu.Bc_dofs_nodes(np.concatenate([cl, ld]), [name], simu.ProblemTypes.elastic), dtype=int)
+            with _quiet():
+                R = np.asarray(simu.Calc_Reaction(dofs, simu.ProblemTypes.elastic), dtype=float)
+            ntr += 1
+            tot, sc = float(R.sum()), float(np.abs(R).sum()) + 1e-300
+            obs.append(tot / sc)
+            if abs(tot) > 1e-8 * sc:
+                v.append(viol("reaction_balance", f"{split}, step {k} (max damage {d.max():.3f}): the reactions in direction {name} over ALL constrained dofs sum to {tot:.6e} "
+                                                  f"(sum of magnitudes {sc:.3e}): they are not those of the system the displacement was solved with", direction=name, step=k, **key))
+    return {"violations": v[:4], "fingerprint": fp("rpf", split, case["mesh"]["id"], np.round(obs, 9)), "nontrivial": bool(np.max(np.asarray(simu.damage)) > 1e-3),
+            "transitions": ntr, "outcome": f"reaction:PhaseField:viol={len(v)}"}
 
 
 def _run_reaction_beam(case):
